@@ -486,7 +486,7 @@ def install_exit_with_root(v, S):
         Definedness of the bracket computation between here and the bisection loop: not decided (see not_decided)."""
         Gs_of(eng, st, eng.fresh("X_last", z3.RealSort()))
         eng.write(st, eng.local_ptr(st, "converged"), z3.IntVal(0))
-        eng.check_defined = False
+        S.cap["mark"] = len(eng.obligations)
         S.cap["exit"] = what + "-failed"
 
     def quartic(eng, st, n, cond, inc, body):
@@ -528,8 +528,35 @@ def install_exit_with_root(v, S):
             failed(eng, st, "newton")
         return NORMAL
 
+    def enclosing_if_line(eng, loopnode):
+        tu, fn = eng.find_function(SOLVER)
+        best = [None]
+
+        def contains(x, target):
+            if not isinstance(x, dict):
+                return False
+            if x.get("id") == target:
+                return True
+            return any(contains(c, target) for c in x.get("inner", ()))
+
+        def walk(x):
+            if not isinstance(x, dict):
+                return
+            if x.get("kind") == "IfStmt" and contains(x, loopnode["id"]):
+                best[0] = x.get("_line")          # innermost wins (the walk goes outside-in)
+            for c in x.get("inner", ()):
+                walk(c)
+        walk(fn)
+        return best[0]
+
     def bisection(eng, st, n, cond, inc, body):
-        eng.check_defined = True
+        # definedness of the bracket computation (between `if (converged == 0)` and the do-loop): not decided
+        lo, hi = enclosing_if_line(eng, n), n.get("_line")
+        m = S.cap.get("mark", len(eng.obligations))
+        kept = [ob for ob in eng.obligations[m:]
+                if not (ob.kind == "def" and ob.where is not None and lo is not None and lo < ob.where < hi)]
+        S.cap["dropped"] = len(eng.obligations) - m - len(kept)
+        eng.obligations[m:] = kept
         mods = eng.loop_modifies(st, n, cond, inc, body, eng.loopspecs[(SOLVER, 3)])
         eng.havoc(st, mods, "bisect")
         X = eng.local(st, "X")
@@ -543,10 +570,19 @@ def install_exit_with_root(v, S):
     v.loop(SOLVER, 3, invariant=bisection, mode="custom")
 
 
-P.not_decided.append("R-mode definedness of the hyperbolic bisection bracket (lines 259-267: sqrt(1-h2*beta/M^2), sqrt(h2)/q, "
-                     "dt/q, dt/(|vq dt|+r0)) on the fall-back path after a failed quartic/Newton iteration: true for "
-                     "beta<=0, h2>0, M>0, but z3 and cvc5 time out on the raw-coordinate polynomials (sign of a product "
-                     "of two expanded polynomials); definedness checks are switched off for exactly that stretch")
+P.not_decided.append("R-mode definedness of the hyperbolic bisection bracket (between `if (converged == 0)` and the do-loop: "
+                     "sqrt(1-h2*beta/M^2), sqrt(h2)/q, dt/q, dt/(|vq dt|+r0)) on the fall-back path after a failed "
+                     "quartic/Newton iteration: true for beta<=0, h2>0, M>0, but z3 and cvc5 time out on the raw-coordinate "
+                     "polynomials (sign of a product of two expanded polynomials); the definedness obligations of exactly "
+                     "that stretch are dropped from kepler_solver.fg (their conditions remain assumed on that path)")
+P.not_decided.append("NATIVE COUNTEREXAMPLE to C03 outside the reach of R-mode contracts (floating-point overflow), found by a "
+                     "native sweep with /venv/bin/python: hyperbolic orbit, x.v <= 0 (at or before pericentre), long positive "
+                     "step.  sim.add(m=1); sim.add(m=0,a=-1,e=2,f=0); whfast (any coordinates; also mercurius, saba), dt=3000: "
+                     "one step returns pos=(0.99997,5196.05), vel=(-3e-8,1.73194), specific energy 1.4996 instead of 0.5; "
+                     "dt=2000 and dt=-10000 are correct; e=1.01 fails already at dt=1000.  Suspected mechanism: the first "
+                     "Newton step X=dt/r0 overflows cosh -> NaN; the bisection evaluates s = r0 X + eta0*G2 + zeta0*G3 - dt "
+                     "with G2=G3=inf: eta0<=0 gives 0*inf or inf-inf = NaN, `s>=0` is false, the lower bound moves up, "
+                     "X -> X_max, Gs non-finite, isnan(ri) -> the straight-line exception x += dt*v")
 
 
 def cross(a, b):
